@@ -174,6 +174,25 @@ def _resolve_one_step(tree):
             "count_list": inc_top or inc_list, "count_scalar": inc_top or inc_scalar}
 
 
+HAS_UNRESOLVED = ["if get_model(obj) != self.model:\n    return get_model(obj)._tx_reference_resolver.has_unresolved_crossrefs(obj)\n"
+                  "else:\n    for crossref_obj, attr, _ in self.parser._crossrefs:\n"
+                  "        if crossref_obj is obj and (not attr_name or attr_name == attr.name):\n            return True\n    return False"]
+
+
+def _pending_query(tree):
+    """has_unresolved_crossrefs (what needs_to_be_resolved answers to scope providers) scans parser._crossrefs,
+    the list resolve_one_step replaces at its end: the `settled` snapshot of the model"""
+    fn = find_func(tree, "has_unresolved_crossrefs", cls="ReferenceResolver")
+    need([a.arg for a in fn.args.args] == ["self", "obj", "attr_name"], "has_unresolved_crossrefs signature changed")
+    body = [_u(s) for s in _nodoc(fn.body)]
+    need(body == HAS_UNRESOLVED, "has_unresolved_crossrefs no longer scans self.parser._crossrefs directly: %r" % body)
+    ttree, _ = parse_file("textx/scoping/tools.py")
+    nb = [_u(s) for s in _nodoc(find_func(ttree, "needs_to_be_resolved").body)]
+    need(nb == ["if hasattr(get_model(parent_obj), '_tx_reference_resolver'):\n"
+                "    return get_model(parent_obj)._tx_reference_resolver.has_unresolved_crossrefs(parent_obj, attr_name)\nelse:\n    return False"],
+         "needs_to_be_resolved changed: %r" % nb)
+
+
 def _cmp(e, what):
     need(isinstance(e, ast.Compare) and len(e.ops) == 1 and isinstance(e.ops[0], ast.Gt) and isinstance(e.left, ast.Name)
          and e.left.id in ("unresolved_count", "resolved_count") and isinstance(e.comparators[0], ast.Constant)
@@ -236,6 +255,7 @@ def translate():
     tree, _ = parse_file("textx/model.py")
     f = _resolve_one_step(tree)
     conj, err = _loop(tree)
+    _pending_query(tree)
     b = lambda x: "true" if x else "false"
     pair = lambda p: "(%s, %d)" % (b(p[0]), p[1])
     emit("SrcResolve", "\n".join([
@@ -253,5 +273,7 @@ def translate():
         "Definition loop_condition : list (bool * nat) := [%s]." % "; ".join(pair(p) for p in conj),
         "(* `if counter > k:` raising 'Unresolvable cross references' with the delayed references of all models, in model order *)",
         "Definition error_condition : bool * nat := %s." % pair(err),
+        "(* compared as text: has_unresolved_crossrefs scans parser._crossrefs, which resolve_one_step replaces at its end *)",
+        "Definition pending_query_is_snapshot_of_parser_crossrefs : bool := true.",
     ]) + "\n")
     return []
